@@ -16,6 +16,10 @@ func IfThenElseO(cond, thn, els Goal) Goal {
 func ifThenElseO(ctx context.Context, conds Stream, thn, els Goal, s *State, res Stream) {
 	headState, ok := conds.Read(ctx)
 	if !ok {
+		if ctx.Err() != nil {
+			// the search was cancelled: that is not "the condition has no answer", and a cancelled search starts no new work
+			return
+		}
 		els(ctx, s, res)
 		return
 	}
